@@ -2,7 +2,7 @@
 from ..common import Report
 from ..corpus import load
 from ..model import ty_s
-from ..wrules import (FnModView, check_fnmod_delegation, entrait_depth, in_macro, is_impl_adt, pred_set)
+from ..wrules import (is_mock_impl, FnModView, check_fnmod_delegation, entrait_depth, in_macro, is_impl_adt, pred_set)
 
 
 def run(tier):
@@ -26,7 +26,7 @@ def run(tier):
             t = orig["sig"]["inputs"][0]
             while t.get("t") == "ref":
                 t = t["inner"]
-            impls = [i for i in v.impls if not in_macro(i, ("unimock", "automock"))]
+            impls = [i for i in v.impls if not is_mock_impl(i)]
             direct = [i for i in impls if entrait_depth(i) == 1]
             nested = [i for i in impls if entrait_depth(i) > 1]
             rep.count("concrete_expansions")
